@@ -337,6 +337,9 @@ def jobs(tier):
     out.append(Job('C14', 's1.mixed_clock', t_mixed_clock, dict(N=3), witnesses=('accepted',)))   # (N=2 would be F11: two un-awaited children evict their parent)
     out += mk('C14', 'roots3', S.roots3())
     out += mk('C14', 'dispatch_then_block', S.dispatch_then_block(2))
+    out += mk('C14', 'recur_then_other', S.recur_then_other())
+    out += mk('C14', 'loop_died_with_backlog', S.loop_died_with_backlog())
+    out += mk('C14', 'flood_retry_rejected', S.flood_retry_rejected())
     out += mk('C14', 'child/await/k1', S.child('await', k=1))
     out += mk('C14', 'flood_idle', S.flood_idle())
     out += mk('C14', 'deep4/await', S.deep4('await'))
